@@ -647,7 +647,8 @@ def run_program(case: dict, seed: int, names: Names, out: dict, kind=None) -> No
                                 f"{type(exc).__name__} (a LoadError) carries {[x[1] for x in flat_model_errors(exc) if x[1].startswith('FOREIGN')][:2]}",
                                 {"exc": "user_loader_in_model"}, probe=probe["d"], dt=dtname)
             # (the lookup of required keys is the same generated code for every model kind: judged on the dataclass models, kind = None)
-            if kind is None and isinstance(datum, dict) and any(e["kind"] == "NoRequiredFields" for e in mo["errs"]):
+            # (... and for every spelling of the names: not repeated under the hostile dictionaries of C19)
+            if kind is None and getattr(names, "table_index", None) is None and isinstance(datum, dict) and any(e["kind"] == "NoRequiredFields" for e in mo["errs"]):
                 # the same input as a mapping with __missing__: an absent required key is still absent, and loading does not write
                 # into the input
                 for dtname, loader in loaders.items():
